@@ -50,6 +50,7 @@ func (_this *MarkedObjectKeyableRule) OnArrayBegin(ctx *Context, arrayType event
 	ctx.BeginArrayKeyable("marked object (keyable)", arrayType)
 }
 func (_this *MarkedObjectKeyableRule) OnChildContainerEnded(ctx *Context, dataType DataType) {
+	ctx.MarkObject(dataType)
 	ctx.UnstackRule()
 	ctx.CurrentEntry.Rule.OnChildContainerEnded(ctx, dataType)
 }
